@@ -182,7 +182,7 @@ CLAIMED.update({
                 "readers, read_exact for bodies, CRC/ISIZE/frame-size integrity guards of BGZF and CRAM on every success exit, CRAM Ok(0) only on "
                 "the is_eof edge dominated by the header CRC comparison, index readers without raw read() and with try_from-converted counts, "
                 "no untabled error-to-success conversion, the bgzf block loader returning a nonzero length only for a block it read. Prefix equality of what was yielded is not decided.",
-        "note": "the never-panics clause is C15's inventory; a BGZF file cut at a block boundary reads as a shorter clean stream by format design; genuine defects F25 (eager BCF reader: partial prefix = EOF, previously mis-triaged as safe by this suite) and F26 (bgzf direct read fabricated bytes at EOF) repaired (fix: abb968d, 24c37d2); R7 fill_buf loops have an emptiness-controlled exit (no hang on truncation); R8 no Result consumed as an iterator; round 7: R9 read_exact contract (seed: MT reader read_exact answering Ok for a partly filled buffer)",
+        "note": "the never-panics clause is C15's inventory; a BGZF file cut at a block boundary reads as a shorter clean stream by format design; genuine defects F25 (eager BCF reader: partial prefix = EOF, previously mis-triaged as safe by this suite) and F26 (bgzf direct read fabricated bytes at EOF) repaired (fix: abb968d, 24c37d2); R7 fill_buf loops have an emptiness-controlled exit (no hang on truncation); R8 no Result consumed as an iterator; round 7: R9 read_exact contract (seed: MT reader read_exact answering Ok for a partly filled buffer); genuine defect F63 (rejected block served on the next read) repaired (fix: 3c2f25e; R10)",
         "technique": "static analysis: guard dominance, call-site classification, Err-edge reachability (MIR)",
         "design_ref": "§5 C13",
     },
